@@ -178,7 +178,10 @@ def order_tie(ctx, n_cases):
         syms = [Symbol(rng.choice(["x", "y", None])) for _ in range(k)]
         names = [s.name for s in syms]
         args = list(sympy.Add(*syms).args)
-        perm = [1 + syms.index(a) for a in args] if len(args) == k else []
+        try:
+            perm = [1 + syms.index(a) for a in args] if len(args) == k else []
+        except ValueError:       # aliasing symbols were merged by Add: reported through the empty permutation
+            perm = []
         pyorder = sorted(range(1, k + 1), key=lambda i: names[i - 1])
         cases.append(f"({gN(n)}, {glist(gN(i) for i in perm)}, {glist(gN(i) for i in pyorder)}, {glist(gstr(x) for x in names)})")
         descs.append({"counter": n, "names": names, "sympy_add_order": perm, "python_sorted": pyorder})
@@ -263,7 +266,7 @@ def run(ctx):
 
     # ---- (a) permutations, (c) dummy creations / raised counters: whole catalogue per process ----
     histories = [{"tag": "ref", "kind": "reference (walk order, no pre-history)", "modules": modules, "hashseed": 0}]
-    n_perm, n_dummy, n_raised = ctx.pick((5, 3, 3), (18, 8, 5))
+    n_perm, n_dummy, n_raised = ctx.pick((5, 3, 3), (12, 6, 5))
     for i in range(n_perm):
         order = modules[:]
         rng.shuffle(order)
@@ -307,8 +310,12 @@ def run(ctx):
         fallback_leaf_keys=sum(v.get("fallback_keys", 0) for v in refm.values()), argseed=argseed)
 
     # modules that do not import at all in the reference history
+    n_fail = 0
     for name, o in refm.items():
         if o["import"] != "ok":
+            n_fail += 1
+            if n_fail > 40:
+                continue
             everywhere = all(r.get("modules", {}).get(name, {}).get("import") == o["import"] for r in results if "worker_error" not in r)
             ctx.violation(f"C03:import:{name.removeprefix('symplyphysics.')}",
                 f"importing {name} fails" + (" identically in all histories" if everywhere else " in the reference history") + f": {o['import']}",
@@ -351,8 +358,8 @@ def run(ctx):
             for d in compare(refm[name], o):
                 diffs.append(({"tag": "alone", "kind": "module imported alone", "hashseed": 0}, name, *d, o))
     tasks = []
-    cap = ctx.pick(10, 48)
-    n_lead = ctx.pick(3, 8)
+    cap = ctx.pick(10, 32)
+    n_lead = ctx.pick(3, 6)
     n_states = 0
     n_lead_states = 0
     for name in chosen:
@@ -404,9 +411,19 @@ def run(ctx):
     # ---- decide ----
     form_variations = 0
     undecided = 0
+    from vp import findings  # pylint: disable=import-outside-toplevel
+    known = {k for k, e in findings.load(ctx.prop).items() if e.get("status") == "known"}
+    per_kind = {}
+    not_listed = 0
     for h, name, kind, item, a, b, obs in diffs:
         short = name.removeprefix("symplyphysics.")
         hist = describe_history(h)
+        key0 = {"import": f"C03:import-history:{short}", "calc": f"C03:calc:{short}.{item}"}.get(kind, f"C03:meaning:{short}.{item}")
+        if key0 not in known and not any(v.key == key0 for v in ctx.violations):
+            per_kind[kind] = per_kind.get(kind, 0) + 1
+            if per_kind[kind] > 25:         # a broken core floods every module: 25 replays per kind are enough, the rest is counted
+                not_listed += 1
+                continue
         if kind == "import":
             ctx.violation(f"C03:import-history:{short}", f"import of {name} depends on the history: reference {a!r}, under {hist.get('kind')} {b!r}",
                 {"kind": "violation", "item": name, "history": hist, "observed": b, "expected": a, "spec": replay_spec(h, name)}, True)
@@ -429,6 +446,7 @@ def run(ctx):
                 {"kind": "violation" if verdict else "disagreement", "item": f"{name}.{item}", "history": hist, "observed": b, "expected": a,
                  "input": point, "spec": replay_spec(h, name), "theorem_or_tie": "exploration: canonical text of the public equation"}, bool(verdict))
     ctx.coverage["differences_found"] = len(diffs)
+    ctx.coverage["differences_beyond_25_per_kind_not_listed"] = not_listed
     ctx.coverage["form_variations_same_value"] = form_variations
     ctx.coverage["undecided_text_differences"] = undecided
     n_hist = len(histories) + n_states + len(chosen)
@@ -441,7 +459,7 @@ def run(ctx):
         ctx.sample({"history": {"kind": "module alone, counters pre-set", "module": tasks[0][0], "counters": tasks[0][1]}})
     ctx.coverage["rule"] = ("a history = (PYTHONHASHSEED, objects created / counters raised before the catalogue, import order) for whole-catalogue "
         "runs, or (module, counter state 10^m - t for every prefix the module mints names for, t = 0..k sampled to "
-        f"{cap} offsets in quick / all up to 48 in thorough, two exponents) for single-module runs; distinct = distinct histories; every one is "
+        f"{cap} offsets in quick / all up to 32 in thorough, two exponents) for single-module runs; distinct = distinct histories; every one is "
         "non-trivial (differs from the reference in order, pre-history, counters or hash seed). Compared per module: import outcome, canonical "
         "text of every public SymPy attribute, every calculate_* result on fixed arguments (rel. tol. 1e-9).")
 
